@@ -35,9 +35,9 @@ def P_(groups, bounded=(), harness=None, trusted=SCHED_TRUSTED, assumptions=SCHE
 
 
 PROPS = {
-    "C01": P_(["values", "dagproto", "nodeexec", "nodebuild", "retwrap", "threads", "decorators"], ["programs", "programs_flat", "reference_matrix", "operator_table", "id_strings", "default_identity"], claim="other",
+    "C01": P_(["values", "dagproto", "nodeexec", "nodebuild", "retwrap", "threads", "decorators"], ["programs", "programs_flat", "reference_matrix", "operator_table", "id_strings", "default_identity", "no_leak"], claim="other",
               explanation="Mixed: the value-level functions between the recorded node table and the returned value are proved against their contracts; that the recorded table is the meaning of the describing function (tracing) is only covered by the bounded program-level stand-in."),
-    "C02": P_(["scheduler", "values", "nodeexec", "graphbuild", "nodebuild", "digraph"], ["reference_matrix", "graph_build", "selection", "conformance", "differential"], dict(SW)),
+    "C02": P_(["scheduler", "values", "nodeexec", "graphbuild", "nodebuild", "digraph"], ["reference_matrix", "graph_build", "selection", "compose", "conformance", "differential"], dict(SW)),
     "C03": P_(["scheduler", "values", "digraph", "dagproto", "graphbuild", "nodebuild", "subdag"], ["programs_flat", "selection", "selection_debug", "setup_histories", "graph_build", "reference_matrix", "id_strings"], dict(SW, active=True)),
     "C04": P_(["scheduler", "values", "dagproto", "dagadmin", "decorators"], ["config"], dict(SW)),
     "C05": P_(["scheduler", "nodeexec", "decorators"], ["config"], dict(SW)),
